@@ -11,7 +11,24 @@ import (
 // ---- the fixed cast ---------------------------------------------------------------------------
 
 var stdUsers = []string{"SYSOP", "brdman", "grpop", "plain", "modA", "modB", "ab", "cd", "ef", "gh", "ij",
-	"Moderator001", "Moderator002", "Moderator003", "other", "xyz"}
+	"Moderator001", "Moderator002", "Moderator003", "other", "xyz", "guest"}
+
+// the UserLevel column of .PASSWDS (bbs.CreateBoard reads the caller's level there)
+func userLevels() []uint32 {
+	out := make([]uint32, len(stdUsers))
+	for i, u := range stdUsers {
+		out[i] = lvBasic
+		for _, c := range callers {
+			if c.id == u {
+				out[i] = c.level
+			}
+		}
+		if u == "guest" {
+			out[i] = lvBoard // overridden by InitCurrentUser
+		}
+	}
+	return out
+}
 
 func uidOf(name string) int32 {
 	for i, u := range stdUsers {
@@ -129,6 +146,25 @@ type histOpt struct {
 	tail    int
 }
 
+// classFor: a parent that is an existing group board of mkTable (slot 0 or 1), avoiding vacated ones.
+func classFor(n int, vac []int) int32 {
+	isVac := func(k int) bool {
+		for _, v := range vac {
+			if v == k {
+				return true
+			}
+		}
+		return false
+	}
+	if n > 0 && !isVac(0) {
+		return 1
+	}
+	if n > 1 && !isVac(1) {
+		return 2
+	}
+	return 1
+}
+
 var histSeed uint64
 
 func resetFor(slots []*slotSpec, o histOpt) string {
@@ -136,7 +172,7 @@ func resetFor(slots []*slotSpec, o histOpt) string {
 	if o.letters == nil {
 		o.letters = allLetters()
 	}
-	rs := &resetSpec{users: usersBytes(), letters: o.letters, dirs: o.dirs, pool: poolBytes(), seed: histSeed, tail: o.tail, slots: slots}
+	rs := &resetSpec{users: usersBytes(), levels: userLevels(), letters: o.letters, dirs: o.dirs, pool: poolBytes(), seed: histSeed, tail: o.tail, slots: slots}
 	return rs.line()
 }
 
@@ -168,15 +204,15 @@ var bmChoices = []string{"", "modA", "modA/modB", "ghost", "modA/ghost/modB", "M
 	"Moderator001/Moderator002/Moderator003x", "aaaaaaaaaaaaaaaaaaaaaaaaaaaaaaaaaaaaaaa", "modA\x00junk/modB", "brdman/plain", "plain/ab/modB",
 	"ab/cd/ef/gh/ij", "ab/cd/ef/gh/ij/ab/cd/ef/gh/ij/ab/cd/ef", "ab/cd/ef/gh/ij/ab/cd/ef/gh/ij/ab/cd/xyz"}
 
-func randReq(r *hx.Rand, created []string, nTable int) *request {
+func randReq(r *hx.Rand, created []string, nTable int, vac []int) *request {
 	c := callers[r.Intn(len(callers))]
 	if r.Intn(3) == 0 {
 		c = callers[0]
 	}
-	cls := int32(1)
+	cls := classFor(nTable, vac)
 	switch r.Intn(10) {
 	case 0:
-		cls = 2
+		cls = 3 - cls
 	case 1:
 		cls = int32(r.Intn(nTable+2)) + 1
 	case 2:
@@ -251,9 +287,10 @@ func generate() {
 	for n := 1; n <= 6; n++ {
 		for v := 0; v < n; v++ {
 			do(resetFor(mkTable(nil, n, []int{v}, true), histOpt{}))
-			do(baseReq(sysop, 1, "Alpha").line())
-			do(baseReq(sysop, 1, "b2").line())
-			do(baseReq(sysop, 1, "alpha").line())
+			cls := classFor(n, []int{v})
+			do(baseReq(sysop, cls, "Alpha").line())
+			do(baseReq(sysop, cls, "b2").line())
+			do(baseReq(sysop, cls, "alpha").line())
 		}
 	}
 	// ---- E3: callers x parents ----------------------------------------------------------------
@@ -263,6 +300,14 @@ func generate() {
 			do(baseReq(c, cls, "Alpha").line())
 		}
 	}
+	// a vacated parent, a parent beyond BNumber, an ordinary board as parent: refused
+	do(resetFor(mkTable(nil, 4, []int{1}, true), histOpt{}))
+	for _, c := range []caller{sysop, brdman, {"modA", lvGroup}} {
+		do(baseReq(c, 2, "Alpha").line())
+		do(baseReq(c, 3, "Alpha").line())
+		do(baseReq(c, 5, "Alpha").line())
+	}
+	do(baseReq(sysop, 1, "Alpha").line())
 	// ---- E4: attribute / level rules ------------------------------------------------------------
 	for _, c := range []caller{sysop, brdman, grpop} {
 		for _, a := range []uint32{0, aHide, aMask, aHide | aMask, aGroup, aCplog, aGroup | aCplog | aMask, 0xffffffff} {
@@ -317,6 +362,38 @@ func generate() {
 		}
 		do("newbm " + csvBytes(ids))
 	}
+	// ---- E5c: bbs.CreateBoard (string arguments, the caller's level from .PASSWDS) ---------------------
+	bb := func(user string, cls int32, name string, bms ...string) *bbsArgs {
+		a := &bbsArgs{userID: []byte(user), cls: cls, name: []byte(name), bclass: []byte("CLS "), btitle: []byte("via bbs")}
+		for _, b := range bms {
+			a.bms = append(a.bms, []byte(b))
+		}
+		return a
+	}
+	for _, u := range []string{"SYSOP", "sysop", "brdman", "grpop", "plain", "guest", "GUEST", "nobody", "1abc", "a", "abcdefghijklm",
+		"brdman\x00x", "brd man", "modA"} {
+		do(resetFor(mkTable(nil, 3, nil, true), histOpt{}))
+		do(bb(u, 1, "Alpha").line())
+		do(bb(u, 2, "b2", "modA").line())
+	}
+	for _, nm := range []string{"Alpha", "abcdefghijkl", "abcdefghijklm", "abcdefghijklmnop", "ab/../cd", "a", "ab\x00cd", "BRD002", ""} {
+		do(resetFor(mkTable(nil, 3, nil, true), histOpt{}))
+		do(bb("brdman", 1, nm).line())
+	}
+	for _, l := range [][]string{{"modA"}, {"modA", "ghost", "modB"}, {"MODA", "plain"}, {"Moderator001", "Moderator002", "Moderator003"},
+		{"Moderator001", "Moderator002", "Moderator003", "modA"}, {"Moderator001x", "modA"}, {"", "modA"}, {"ab", "cd", "ef", "gh", "ij"},
+		{"brdman"}, {"abcdefghijklmnop", "modB"}} {
+		do(resetFor(mkTable(nil, 3, []int{2}, true), histOpt{}))
+		a := bb("brdman", 1, "Alpha", l...)
+		a.attr = aHide
+		do(a.line())
+		do(bb("SYSOP", 1, "b2", l...).line())
+	}
+	{
+		do(resetFor(mkTable(nil, MAXB, nil, true), histOpt{}))
+		do(bb("brdman", 1, "Alpha").line())
+		do(bb("nobody", 1, "Alpha").line())
+	}
 	// ---- E6: class and title lengths ----------------------------------------------------------------
 	for _, cl := range [][]byte{{}, []byte("ab"), []byte("CLS "), []byte("abcdefg"), []byte("a\x00b")} {
 		for _, tl := range []int{0, 5, 41, 42, 43, 60} {
@@ -359,12 +436,13 @@ func generate() {
 	for round := 0; round < rounds; round++ {
 		for _, n := range sizes {
 			k := 2 + r.Intn(5)
-			do(resetFor(mkTable(r, n, pickSubset(r, n, k), true), histOpt{}))
+			vac := pickSubset(r, n, k)
+			do(resetFor(mkTable(r, n, vac, true), histOpt{}))
 			for j, nm := range []string{"Alpha", "b2", "Zed-9.x_", "a.b", "x_y", "abcdefghijkl", "ALPHA"} {
 				if j > k {
 					break
 				}
-				do(baseReq(sysop, 2, nm).line())
+				do(baseReq(sysop, classFor(n, vac), nm).line())
 			}
 		}
 	}
@@ -393,8 +471,21 @@ func generate() {
 		var created []string
 		steps := 1 + r.Intn(maxLen)
 		for s := 0; s < steps; s++ {
-			q := randReq(r, created, n)
-			do(q.line())
+			q := randReq(r, created, n, vac)
+			if r.Intn(4) == 0 { // the same request through bbs.CreateBoard
+				a := &bbsArgs{userID: q.user, cls: q.cls, name: q.name, bclass: q.bclass, btitle: q.btitle, attr: q.attr,
+					level: q.level, chess: q.chess, isGroup: q.isGroup}
+				if !q.bmsNil {
+					for _, seg := range strings.Split(string(cstrOf(q.bms)), "/") {
+						if len(seg) <= 16 {
+							a.bms = append(a.bms, []byte(seg))
+						}
+					}
+				}
+				do(a.line())
+			} else {
+				do(q.line())
+			}
 			created = append(created, string(cstrOf(pad(q.name, 13))))
 		}
 	}
@@ -420,12 +511,12 @@ func generate() {
 		"create", "reset", "reset - - - - 1 0 1", "reset - - - - 1 0 0 extra", "frobnicate 1 2",
 		good + " 1", strings.Replace(good, " nil ", " NIL ", 1), strings.Replace(good, "create 53", "create 5", 1),
 		strings.Replace(good, " 416c706861 ", " 416c7068610000000000000000aa ", 1), // 14-byte name
-		"create 5359534f50 4294967296 1 1 416c706861 434c5320 74 nil 0 0 0 0",        // level beyond uint32
-		"create 5359534f50 16384 1 1 416c706861 434c5320 74 nil 0 0 256 0",             // chess beyond a byte
+		"create 5359534f50 4294967296 1 1 416c706861 434c5320 74 nil 0 0 0 0",      // level beyond uint32
+		"create 5359534f50 16384 1 1 416c706861 434c5320 74 nil 0 0 256 0",         // chess beyond a byte
 		"create 5359534f50 16384 1 1 416c706861 434c5320 74 nil 0 0 0 2",
 		"create 5359534f50 16384 1 2147483648 416c706861 434c5320 74 nil 0 0 0 0",
 		"reset zz - - - 1 0 0", "reset - - - - 1 256 0", "reset - - - - 1 0 1 c:41:-:-:0:0:0", "reset - - - - 1 0 1 x:41:-:-:0:0:0:0",
-		"layout now", "newbm", "newbm zz", "newbm 6162 6364",
+		"layout now", "bcreate", "bcreate 6162 1 6162 - - - 0 0 0", "bcreate 6162 1 6162 - - zz 0 0 0 0", "newbm", "newbm zz", "newbm 6162 6364",
 	} {
 		do(l)
 	}
